@@ -12,7 +12,7 @@ CHECKS = {
  "C01": (True, "E1 + E2 driver", "model_checking",
    "explicit-state BFS to fixpoint over two real Tcbs + deviation-bounded enumeration of driver decisions",
    "Every interleaving of writes, reads, flushes, RTO expiries and per-segment deliver/drop/duplicate choices of a two-endpoint system built from the real Tcb is enumerated to a fixpoint within small budgets; in every state the stream-prefix invariant is checked and a fair continuation must deliver, acknowledge and fall silent. Large transfers (above MSS and above the 64 KiB window) are covered by bounded-deviation enumeration around the loss-free run.",
-   "Budgets (writes, drops, duplicates, timer expiries) and MTU/ISN values are those listed in the evidence parts; the network model loses/duplicates/reorders but does not corrupt.", "6 C01"),
+   "Budgets (writes, drops, duplicates, timer expiries) and MTU/ISN values are those listed in the evidence parts; the network model loses/duplicates/reorders but does not corrupt. The driver transfers include 70000 bytes (above the window), late readers (the buffer fills inside a segment) and 9000 bytes at MTU 100 (150 segments in one window).", "6 C01"),
 
  "C02": (True, "E2 + E4 (loom)", "model_checking",
    "deviation-bounded exhaustive schedule search (task order, select branch, per-frame faults) over the real socket stack under a paused clock; exhaustive thread interleavings under loom (DPOR, preemption bound) for the socket layer's lock-protected hand-offs",
@@ -41,7 +41,7 @@ CHECKS = {
  "C17": (True, "E1 + E3", "model_checking",
    "all states of a fault-free two-endpoint model x full attacker-segment alphabet product, each distinct outcome continued with the legitimate peer",
    "From every reachable state of a fault-free model (all nine statuses) one segment of the product 64 flag sets x 8 seq x 6 ack x 4 window x 3 length is injected by the real segment_arrives (thorough: also two in a row and a 70000-byte sweep past an injected sequence number); no call may unwind, first transmissions stay inside the reference window, table-6-unacceptable segments change neither state nor delivered data, and every distinct resulting state is continued with the real peer.",
-   "Acceptability is RFC 9293 table 6; Elvis deliberately accepts RCV.NXT-1 (open known finding).", "6 C17"),
+   "Acceptability is RFC 9293 table 6; Elvis deliberately accepts RCV.NXT-1 (open known finding). Two victim sets: ISNs (100, 300) with the full alphabet and ISNs (0xA0000000, 0x90000000) with the reduced one, so that each side is once the endpoint whose own numbers are above its peer's and in the upper half of the space. The window clause is judged against an implementation-independent reference (an acceptable in-order segment acknowledging something in [SND.UNA, SND.NXT] sets the window; the segment that completes the handshake sets it unconditionally), not against the endpoint's own SND.WND/WL1/WL2.", "6 C17"),
  "C03": (True, "E1", "model_checking",
    "explicit-state BFS to fixpoint over two real Tcbs with close / simultaneous open / old duplicate SYN",
    "All interleavings of opens, closes (either or both sides, in every state), data, one drop or duplicate and RTO expiries are enumerated on the real Tcb; every call is checked against the RFC 9293 figure-5 transition relation, every state against sequence-space agreement, and from every distinct state a fair continuation in which both applications close must release both TCBs without a reset and with all data delivered before end-of-stream.",
@@ -73,7 +73,7 @@ CHECKS = {
  "C16": (True, "E2", "model_checking",
    "deviation-bounded schedule search over generated router topologies with the real ArpRouter/Arp/Ipv4",
    "Lines of 1-3 routers, stars of 3-4 subnets and a 3-router ring with correct, missing and looping static routes carry one UDP datagram per execution between every listed host pair; IPv4 frames are parsed off the wire: along the configured path the TTL falls by exactly one per router, the datagram reaches the destination host only, a loop or black hole ends after at most the initial TTL hops and the networks fall silent.",
-   "d <= 1 (quick) / 2 (thorough) over task order and frames held back; hosts use a /32 mask with a default gateway as in the repository's own simulation.", "6 C16"),
+   "d <= 1 (quick) / 2 (thorough) over task order and frames held back; hosts use a /32 mask with a default gateway as in the repository's own simulation. On correct routes the destination answers and the reply is judged by the same clauses in the other direction, also across two routers that share both host networks (the way back uses the other router); a further variant addresses the datagram to an address of the destination subnet that no machine owns, with wildcard listeners on every host.", "6 C16"),
  "C13": (True, "E2", "model_checking",
    "deviation-bounded schedule search with run_internet_with_timeout itself as a task of the explored runtime",
    "Machine sets from 0 machines to three-machine SendMessage/Forward/Capture chains, plus 17 sets of the other built-in protocols and applications (DHCP, DNS, socket, basic, streaming; pairs, servers alone, clients alone) on full stacks with ARP; harness applications that are slow to initialise, never initialise, return, hang, or request shutdown early/late/concurrently (incl. 20 at one instant) are run in every schedule within d deviations under a paused clock; a global event order shows that no frame or demux precedes the last initialisation, the status is the first request's (or TimedOut), and the call returns within timeout + 1 s.",
@@ -85,11 +85,11 @@ CHECKS = {
  "C19": (True, "E3 + E2", "model_checking",
    "complete enumeration of description trees x renderings for parse round trip and structural-error rejection, plus schedule-explored runs of the described simulations",
    "Description trees (3 application chains x network placements x address pools x wiring by name/address x protocol modes x argument values with spaces, escaped quotes, '=' and '[' x capture modes x counts) are rendered 768 ways (tabs/4 spaces, LF/CRLF, section orders, ...) and must parse back to the same structure; every structural error class applied at every line must be rejected with a message; every valid tree is run through generate_and_run_sim under a paused clock (a subset in every schedule within one deviation): the run ends Exited and the wire shows each sender's payload travelling to the named receiver.",
-   "Values the grammar cannot represent (']', bare quote, four spaces, CR/LF) are outside the alphabet; std HashMap order in the generator is not controllable, every default execution is run twice and must agree; each execution leaks ~35 KB (machines are built inside the generator), which bounds the run counts.", "6 C19"),
+   "Values the grammar cannot represent (']', bare quote, four spaces, CR/LF) are outside the alphabet; std HashMap order in the generator is not controllable, every default execution is run twice and must agree; each execution leaks ~35 KB (machines are built inside the generator), which bounds the run counts. A separate part runs 96 descriptions over six spellings and orders of the address pool (ranges, single addresses, descending, a gap filled last).", "6 C19"),
  "C20": (True, "E2", "model_checking",
    "deviation-bounded schedule and frame-delay search over the real DnsClient/DnsServer on the socket stack",
    "Record sets (1-3 names incl. every printable character and the 24/25-byte names, addresses 0.0.0.0 and 255.255.255.255) and 1-3 clients running lookup scripts (same name twice, crossing names) are executed in every schedule within d deviations with frames held back so that replies arrive in any order: every call returns the registered address, every query has a reply to the same endpoint echoing id and name, and a repeated lookup puts no frame on the wire.",
-   "The authoritative server is sized to the number of distinct lookups so that it ends by itself.", "6 C20"),
+   "The authoritative server is sized to the number of distinct lookups so that it ends by itself. Record sets also cover names that differ only in letter case, a non-ASCII name next to the name its UTF-8 bytes spell in Latin-1, and clients that start several lookups at the same time while ARP is still unresolved.", "6 C20"),
  "C18": (True, "E3 (compute_checksum build)", "exploration",
    "bounded-exhaustive enumeration in the compute_checksum build against an RFC 1071 reference and etherparse, plus all single and double bit flips",
    "In a separate build with checksums enabled every emitted IPv4/UDP/TCP checksum over the field products (odd/empty/maximal payloads, sums crafted to 0xffff) must verify under an independent RFC 1071 sum and agree with etherparse, the decoders must accept etherparse-built packets, and every single- and double-bit corruption the checksum can detect must be rejected.",
